@@ -36,6 +36,10 @@ MANIFEST = dict(
     technique="Lean 4 proof (arithmetic mod 65535, GF(2)-linearity of the CRC register) + model/impl correspondence + RFC "
               "dissector and libpcap oracles",
     design="DESIGN.md §6 C05")
+MANIFEST["note"] += (" Constants and limits of the C++ source that the model restates (translator/gen_limits.py -> Gen/Limits.lean: "
+                     "compiled probe + preprocessed function bodies at named anchors) are tied to the model's numerals by the "
+                     "theorems of lean/TinsModel/Props/Limits/C05.lean (audit: Audit/LimitsC05.lean); tools/LIMITS-INVENTORY.md lists "
+                     "what is tied and what is not.")
 
 CASE_START = ("sum", "crc", "ph4", "ph6", "pkt", "pcap", "reser")
 
